@@ -42,6 +42,11 @@ Definition check (c : case) : bool :=
 (* G: either the tables pass the checker, or what makes them fail is among the recorded stale cells
    (state derived from the input inside __init__) — never a surviving result, never an ill-formed graph
    beyond the recorded edges *)
+(* [isolated]: observed on the running code — resetting / re-targeting a copy (copy.copy, the copied instance dict
+   of a slice) left every byte of the original's instance dict as it was: the hypothesis under which the model
+   treats object states as values (C14_copy_reset_equiv_fresh) *)
+Definition tables_ok_iso (isolated : bool) (ok : bool) : bool := isolated && ok.
+
 Definition tables_ok (g : graph) (prot assigned changed : list nat) (expected_edges : list (nat * nat * nat))
            (expected_stale : list nat) : bool :=
   edges_within (bad_edges_strict g prot) expected_edges
